@@ -96,3 +96,6 @@ def run_proofs(ctx):
     ctx.assume("A-lib(find_nulls): returns exactly the set of null row positions of an evaluated factor and does not raise for materializer-produced values",
                "NAAction has exactly the members DROP, RAISE, IGNORE (finite enum sort)")
     run_contracts(ctx, cs, reg, workloads=workloads(), concrete_env=CONCRETE_ENV)
+    from vf.proofs.plumbing import run_plumbing
+
+    run_plumbing(ctx)
